@@ -687,7 +687,9 @@ def gen_entry(ctx):
         toks = [t for t in (c['fmt'][1].split(',') if c['fmt'][0] == 'str' else [t[1] for t in c['fmt'][1]]) if t.strip()]
         import re as _re
         structured = any(ch in ''.join(toks) for ch in '*()<>@=')
-        fam = [] if structured else [family_values((_re.match(r'[a-zA-Z]+', t.strip()) or [''])[0] or 'uint') for t in toks]
+        # one value family per token that consumes a positional value (pad tokens take none)
+        fam = [] if structured else [family_values((_re.match(r'[a-zA-Z]+', t.strip()) or [''])[0] or 'uint') for t in toks
+                                     if not _re.match(r'\s*pad\b|\s*pad[:\d]', t)]
         want = rng.choice([k, k, k + 1, max(k - 1, 0), 0])
         # values whose meaning does not depend on the token they end up with (an int can be a bit count for a 'bits' token)
         safe = [['int', 0], ['int', 1], ['int', -1], ['int', 255], ['int', 65536], ['float', 0.5], ['float', float('nan')], ['str', 'ff'], ['str', 'zz'],
